@@ -219,7 +219,7 @@ func execC15(spec *RunSpec) *Result {
 	// one inside the base Template (Load.Render, RenderFile, layout chain). The view is kept per cache.
 	views := map[string]map[string]*cacheView{"vue": {}, "tpl": {}}
 	cacheOf := func(entry string) string {
-		if entry == "Vue.Render" {
+		if strings.HasPrefix(entry, "Vue.") { // Vue.Render, Vue.RenderFragment, Vue.RenderNodes: the *Vue engine
 			return "vue"
 		}
 		return "tpl"
@@ -284,10 +284,13 @@ func execC15(spec *RunSpec) *Result {
 				snap[k] = v
 			}
 			checks = append(checks, pending{i: i, op: op, out: out, cur: snap, amb: amb, flt: sfs.Faulted(i)})
-			// update the cache's view from this operation (cached path only, pages and layouts only)
-			if cachedPath(op.Entry) {
+			// update the engine's view of every file this operation looked at. Pages and layouts go through the
+			// template cache only on the cached entry points; components and side files are read afresh today, but the
+			// statement excludes equal-mtime edits of ANY file from the freshness claim (an engine that cached
+			// components by mtime would be within it), so they are tracked the same way on every entry point.
+			{
 				for name, mask := range sfs.Observed(i) {
-					if name != op.File && !strings.HasPrefix(name, "layouts/") {
+					if (name == op.File || strings.HasPrefix(name, "layouts/")) && !cachedPath(op.Entry) {
 						continue
 					}
 					for v := 0; v < 32; v++ {
